@@ -1,7 +1,7 @@
 // Gun-level cases of hC10: the real HTTP / CONNECT / HTTP-scenario / gRPC / gRPC-scenario guns
 // against in-process targets (harness/internal/a18).
 //
-//	http  <gun h|c> <fault> <status> <enabled> <depth> <notagonly> <tag> <path>
+//	http  <gun h|c> <fault> <status> <enabled> <depth> <notagonly> <tag> <path> [<opts: letters t d a>]
 //	      fault: ok refuse reset stall trunc truncrst badconnect connreset invalid hookok hookfail0 hookfail1
 //	      -> own=<samples reported by Shoot> hook=<samples reported by the Connect hook> [tags proto net id] shape=<timeout>:<shape> reqs=<requests the target saw>
 //	hscen <name> <step>,<step>...      step = <name>:<kind>, kind: s<status> reset trunc pp<status> tmpl pre
@@ -175,8 +175,12 @@ func httpGunConfig(addr string) phttp.GunConfig {
 }
 
 func runHTTP(f []string) string {
-	if len(f) != 9 {
+	if len(f) != 9 && len(f) != 10 {
 		return "unknown-case"
+	}
+	opts := ""
+	if len(f) == 10 {
+		opts = f[9] // t: httptrace timings, d: request/response dumps, a: answer log (filter all)
 	}
 	gunKind, fault, status := f[1], f[2], f[3]
 	depth, _ := strconv.Atoi(f[5])
@@ -204,6 +208,12 @@ func runHTTP(f []string) string {
 	cfg.AutoTag.Enabled = f[4] == "1"
 	cfg.AutoTag.URIElements = depth
 	cfg.AutoTag.NoTagOnly = f[6] == "1"
+	cfg.HTTPTrace.TraceEnabled = strings.Contains(opts, "t")
+	cfg.HTTPTrace.DumpEnabled = strings.Contains(opts, "d")
+	if strings.Contains(opts, "a") {
+		cfg.AnswLog.Enabled = true
+		cfg.AnswLog.Filter = "all"
+	}
 	var g *phttp.BaseGun
 	if gunKind == "c" {
 		g = phttp.NewConnectGun(cfg, zap.NewNop())
@@ -480,7 +490,11 @@ func genGuns(r *vh.Rand, tier string) []string {
 		if r.Chance(1, 2) {
 			tag = r.Pick([]string{"t", "tag with space", "a|b"})
 		}
-		return fmt.Sprintf("%s %d %s %s %s", vh.B(r.Chance(1, 2)), r.Intn(4), vh.B(r.Bool()), vh.HexS(tag), vh.HexS(rndPath()))
+		opts := ""
+		if r.Chance(1, 3) {
+			opts = " " + r.Pick([]string{"t", "d", "a", "td", "tda"})
+		}
+		return fmt.Sprintf("%s %d %s %s %s%s", vh.B(r.Chance(1, 2)), r.Intn(4), vh.B(r.Bool()), vh.HexS(tag), vh.HexS(rndPath()), opts)
 	}
 	// every status a response can carry, through the real HTTP gun (exhaustively) ...
 	lo, hi := 200, 599
